@@ -348,7 +348,49 @@ def r10_9(ctx: Ctx) -> None:
                       "computed for the PREVIOUS member (e.g. a member without a time stamp shows its predecessor's)", construct=f"loop-carried {a.id}")
 
 
+def r10_11(ctx: Ctx) -> None:
+    """(a) getinfo: the query loses its trailing slash (remove_trailing_slash), so the member name it is compared with is normalised by
+    the same function - a member stored as 'd0/' is found as 'd0' and as 'd0/'.  (b) archiveinfo works for an archive passed as a
+    nameless stream: `self.filename` (None then) reaches os.stat / open only behind a None test, never behind an assert.  (c) the kind
+    the format assigns: an empty stream whose EmptyFile bit is clear is a directory whatever the attribute word says - is_directory has
+    no return that decides on the attribute word before that rule was applied."""
+    g = shared.szf(ctx, "getinfo")
+    strips = [c for c in q.calls(g) if attr_tail(c) == "remove_trailing_slash"]
+    cmps = [n for n in walk(g.node) if isinstance(n, ast.Compare) and len(n.ops) == 1 and isinstance(n.ops[0], ast.Eq) and
+            any(isinstance(x, ast.Attribute) and x.attr == "filename" for x in ast.walk(n))]
+    ctx.floor("R10.11", len(cmps), 1, "name comparison in getinfo")
+    query_stripped = any(isinstance(a, ast.Name) and a.id == g.params[1] for c in strips for a in c.args) if len(g.params) > 1 else False
+    if query_stripped:
+        for n in cmps:
+            side = n.left if any(isinstance(x, ast.Attribute) and x.attr == "filename" for x in ast.walk(n.left)) else n.comparators[0]
+            ok = isinstance(side, ast.Call) and attr_tail(side) == "remove_trailing_slash"
+            ctx.check(ok, "R10.11", g, n, "getinfo normalises the member name like the query",
+                      f"getinfo strips the trailing slash of the query but compares it with the member name as stored (`{norm(n)}`): a member stored as 'd0/' - listed by "
+                      "namelist()/list() - is found neither as 'd0/' nor as 'd0' (KeyError)", construct="getinfo name comparison")
+    a = shared.szf(ctx, "archiveinfo")
+    for c in q.calls(a):
+        if dotted(c.func) in ("os.stat", "os.path.getsize", "open") and c.args:
+            srcs = [c.args[0]] + list(q.sources_of(a, c.args[0], depth=2))
+            if any(isinstance(x, ast.Attribute) and x.attr == "filename" for e in srcs for x in ast.walk(e)):
+                ok = q.known_not_none(q.facts_at(a, c), c.args[0])
+                ctx.check(ok, "R10.11", a, c, "archiveinfo uses the file name only where it is known to exist",
+                          f"archiveinfo() evaluates `{norm(c)}` without a None test on the file name (an assert is not one): for an archive opened from BytesIO the summary "
+                          "fails with AssertionError / TypeError although every other listing call works", construct="archiveinfo filename")
+    d = ctx.prog.func("py7zr", "ArchiveFile.is_directory")
+    rets = [r for r in walk(d.node) if isinstance(r, ast.Return) and r.value is not None]
+    ctx.floor("R10.11", len(rets), 1, "returns of ArchiveFile.is_directory")
+    cfg = cfg_of(d.node)
+    fmt_tests = [t for t in cfg.nodes if t.kind == "test" and any(isinstance(x, ast.Constant) and x.value == "emptyfile" for x in ast.walk(t.ast))]
+    for r in rets:
+        mentions = any(isinstance(x, ast.Constant) and x.value == "emptyfile" for x in ast.walk(r.value))
+        dominated = any(cfg.dominates(t, q.node_for(d, r)) for t in fmt_tests)
+        ctx.check(mentions or dominated, "R10.11", d, r, "is_directory applies the format's EmptyStream/EmptyFile rule before any attribute test",
+                  f"`{norm(r)}` decides the kind from the attribute word on a path that has not looked at the EmptyFile flag: a directory entry (empty stream, EmptyFile "
+                  "clear) whose attribute word lacks the DIRECTORY bit (attribute 0, ARCHIVE only, unix mode only) is listed and extracted as a file", construct="is_directory format rule")
+
+
 def run(ctx: Ctx) -> None:
+    r10_11(ctx)
     from . import c08 as _c08
     _c08.r08_14(ctx, rule="R10.10")  # the listed crc32 of a member protected by a folder CRC
     r10_9(ctx)
